@@ -629,6 +629,26 @@ def dbCounters (db : DB) : Counters :=
       lock := a.lock + b.2.ctr.lock, link := a.link + b.2.ctr.link, gc := a.gc + b.2.ctr.gc,
       payload := a.payload + b.2.ctr.payload }) {}
 
+/-- `syncContainerCounters(force = true)`: the counters are recounted from the index. A removed container
+keeps only its garbage counter (= its physical objects); the payload counts the physical objects that are
+neither tombstoned nor carry a removal mark of either kind (repaired: a redundant-copy mark counts too) -/
+def Cnr.syncCounters (c : Cnr) : Cnr :=
+  let phy := (c.recs.filter (·.phy)).length
+  if c.gcMark then { c with ctr := { gc := phy } }
+  else
+    { c with ctr :=
+        { phy := phy,
+          root := (c.recs.filter (·.root)).length,
+          ts := (c.recs.filter (·.typ == .tombstone)).length,
+          lock := (c.recs.filter (·.typ == .lock)).length,
+          link := (c.recs.filter (·.typ == .link)).length,
+          gc := c.garb.length,
+          payload := ((c.recs.filter fun r => r.phy && c.inGarbage r.id == .available &&
+            !(c.garb.any fun g => g.1 == r.id)).map (·.size)).sum } }
+
+/-- `DB.SyncCounters` -/
+def dbSyncCounters (db : DB) : DB := db.map fun b => (b.1, b.2.syncCounters)
+
 /-- `DB.GetContainerInfo`: (storage size, objects number) -/
 def dbContainerInfo (db : DB) (cn : Nat) : Nat × Nat :=
   match getCnr? db cn with
@@ -649,6 +669,7 @@ inductive Op
   | deleteCnr (cn : Nat)
   | delete (cn : Nat) (ids : List Nat)
   | revive (cn id : Nat)
+  | syncCounters
 
 structure St where
   db : DB := []
@@ -662,6 +683,7 @@ def step (s : St) : Op → St
   | .deleteCnr cn => { s with db := dbDeleteContainer s.db cn }
   | .delete cn ids => { s with db := dbDelete s.db cn ids }
   | .revive cn id => { s with db := (dbRevive s.db cn id).1 }
+  | .syncCounters => { s with db := dbSyncCounters s.db }
 
 /-- the state after a history, from the empty metabase -/
 def run (ops : List Op) : St := ops.foldl step {}
